@@ -51,7 +51,8 @@ for f in sorted(glob.glob(os.path.join(V, "seeded", "*", "meta.json"))):
     seeded.append(json.load(open(f)))
 nvalid = sum(1 for m in seeded if m.get("valid"))
 ncaught = sum(1 for m in seeded if m.get("caught"))
-missed = [m["id"] for m in seeded if m.get("valid") and not m.get("caught")]
+out_of_scope = [m["id"] for m in seeded if m.get("out_of_scope")]
+missed = [m["id"] for m in seeded if m.get("valid") and not m.get("caught") and not m.get("out_of_scope")]
 obsolete = [m["id"] for m in seeded if m.get("obsolete")]
 w4 = [m for m in seeded if "-w4-" in m["id"]]
 w4first = sum(1 for m in w4 if m.get("first_verdict") == "caught")
@@ -222,7 +223,7 @@ it, and which of the two is "right" for such a netlist is a decision for the mai
 that the repository's tests still pass with the change and that the demo fails with / passes
 without it; `tools/seeded.py detect <id>` runs the property's quick check against a scratch
 worktree carrying the change; `seeded/README.md` lists every change with the current verdict.
-Currently ''' + "%d changes, %d valid, %d caught" % (len(seeded), nvalid, ncaught) + (" (missed: %s)" % ", ".join(missed) if missed else "") + (" (no longer property-breaking after a later `fix:` and therefore not valid any more: %s)" % ", ".join(obsolete) if obsolete else "") + r'''.
+Currently ''' + "%d changes, %d valid, %d caught" % (len(seeded), nvalid, ncaught) + (" (missed: %s)" % ", ".join(missed) if missed else "") + (" (no longer property-breaking after a later `fix:` and therefore not valid any more: %s)" % ", ".join(obsolete) if obsolete else "") + (" (judged outside the property as stated, reason in its meta.json: %s)" % ", ".join(out_of_scope) if out_of_scope else "") + r'''.
 
 * Wave 1 (18 changes; C01, C02, C08-C12, C14, C19): 14 caught at once.  The misses led to S9 (definition
   reshaped after it was instanced, then re-pointed), skeleton K10 (wire-only cell instanced twice), the
